@@ -58,7 +58,7 @@ func genStatements(c *worker.Ctx, p *lintProgram, scope string, users []string, 
 	n := 1 + c.T.Draw(4)
 	vars := scopeVars[scope]
 	for i := 0; i < n; i++ {
-		switch c.T.Draw(19) {
+		switch c.T.Draw(20) {
 		case 0:
 			fmt.Fprintf(&b, "  set %s = \"v\";\n", vars[c.T.Draw(len(vars))])
 		case 1:
@@ -105,6 +105,19 @@ func genStatements(c *worker.Ctx, p *lintProgram, scope string, users []string, 
 		case 14:
 			if len(p.funcs) > 0 {
 				fmt.Fprintf(&b, "  if (%s(req.http.X-A)) { set req.http.X-A = \"f\"; }\n", p.funcs[c.T.Draw(len(p.funcs))])
+			}
+		case 19:
+			// ignore comments: this line only, the next line only, a range — what they silence ends where they say
+			v := []string{"beresp.http.X-B", "resp.http.X-C", "obj.status", "bereq.http.X-E"}[c.T.Draw(4)]
+			switch c.T.Draw(4) {
+			case 0:
+				fmt.Fprintf(&b, "  set req.http.X-A = %s; // falco-ignore\n", v)
+			case 1:
+				fmt.Fprintf(&b, "  // falco-ignore-next-line\n  set req.http.X-A = %s;\n", v)
+			case 2:
+				fmt.Fprintf(&b, "  // falco-ignore-start\n  set req.http.X-A = %s;\n  // falco-ignore-end\n", v)
+			default:
+				fmt.Fprintf(&b, "  set req.http.X-A = %s; # falco-ignore\n  set req.http.X-A = %s;\n", v, v)
 			}
 		case 15:
 			// statements with absent optional parts, and odd but legal forms
